@@ -1178,12 +1178,25 @@ class HookEval:
         r = self._exec_block(fn.body, w)
         if r is _BREAK:
             raise AnalysisError(f"{self.rel}: break outside a loop in {self.name}")
+        if isinstance(r, Leaf) and r.kind == "try" and r.handler is None:
+            r.handler = Leaf("fallthrough", node=fn)
         if r is None:
             return Leaf("fallthrough", node=fn)
         return r
 
+    def _resolve_pending(self, res, rest, w, extra):
+        """`try: return A  except E: pass` leaves the except branch to whatever follows the statement: the rest of
+        the block (and, if that falls through too, of the enclosing blocks) is its continuation."""
+        if isinstance(res, Leaf) and res.kind == "try" and res.handler is None:
+            cont = self._exec_block(rest, w, extra)
+            if cont is _BREAK:
+                raise AnalysisError(f"{self.rel}: break after a try statement in {self.name}")
+            if cont is not None:
+                res.handler = cont
+        return res
+
     def _exec_block(self, body, w, extra=None):
-        for st in body:
+        for i_, st in enumerate(body):
             if isinstance(st, ast.Expr) and isinstance(st.value, ast.Constant):
                 continue
             if isinstance(st, ast.AnnAssign):
@@ -1228,7 +1241,7 @@ class HookEval:
                     return Leaf("error", node=st, what=r[1])
                 res = self._exec_block(st.body if r else st.orelse, w, extra)
                 if res is not None:
-                    return res
+                    return self._resolve_pending(res, body[i_ + 1:], w, extra)
                 continue
             if isinstance(st, ast.Assign) and len(st.targets) == 1 and isinstance(st.targets[0], ast.Name):
                 p = self.path_of(st.value, extra)
@@ -1254,21 +1267,32 @@ class HookEval:
             if isinstance(st, ast.Try):
                 # `try: return A  except Exception: return B`: what the hook returns depends on whether A raises for
                 # the value at hand; both leaves are kept and the judge decides (sites.judge, leaf kind "try")
-                catches_all = bool(st.handlers) and all(
-                    h.type is None or dotted(h.type) in ("Exception", "BaseException") for h in st.handlers)
-                if st.finalbody or st.orelse or not catches_all or len(st.handlers) != 1:
+                # handler types: everything a failing structure() call can raise is an Exception; a handler that names
+                # exception classes is read as catching those failures (which of them actually arrive depends on the
+                # converter's detailed_validation setting: that is C19's clause `handler-independent-of-validation-mode`)
+                def hnames(h_):
+                    if h_.type is None:
+                        return ["Exception"]
+                    ts_ = h_.type.elts if isinstance(h_.type, ast.Tuple) else [h_.type]
+                    return [(dotted(t_) or "?").split(".")[-1] for t_ in ts_]
+                known = {"Exception", "BaseException", "BaseValidationError", "ClassValidationError", "IterableValidationError",
+                         "ExceptionGroup", "StructureHandlerNotFoundError", "ForbiddenExtraKeysError", "TypeError", "ValueError",
+                         "KeyError", "LookupError", "IndexError", "AttributeError"}
+                if st.finalbody or st.orelse or len(st.handlers) != 1 or not set(hnames(st.handlers[0])) <= known:
                     raise AnalysisError(f"{self.rel}:{st.lineno}: try statement inside hook {self.name} of a form that is "
-                                        "not modelled (finally / else / typed handlers)")
-                body = self._exec_block(st.body, w, extra)
+                                        "not modelled (finally / else / several handlers / unknown exception classes)")
+                tbody = self._exec_block(st.body, w, extra)
+                if tbody is None or tbody is _BREAK:
+                    raise AnalysisError(f"{self.rel}:{st.lineno}: try body inside hook {self.name} does not return")
                 handler = self._exec_block(st.handlers[0].body, w, extra)
-                if body is None or handler is None:
-                    raise AnalysisError(f"{self.rel}:{st.lineno}: try/except inside hook {self.name} whose branches do "
-                                        "not both return")
-                return Leaf("try", node=st, body=body, handler=handler)
+                if handler is _BREAK:
+                    raise AnalysisError(f"{self.rel}:{st.lineno}: break in an except branch of {self.name}")
+                leaf_ = Leaf("try", node=st, body=tbody, handler=handler, catches=tuple(hnames(st.handlers[0])))
+                return self._resolve_pending(leaf_, body[i_ + 1:], w, extra) if handler is None else leaf_
             if isinstance(st, ast.For) and not st.orelse:
                 res = self._exec_for(st, w, extra)
                 if res is not None:
-                    return res
+                    return self._resolve_pending(res, body[i_ + 1:], w, extra)
                 continue
             if isinstance(st, (ast.For, ast.While)):
                 raise AnalysisError(f"{self.rel}:{st.lineno}: loop statement inside hook {self.name}")
@@ -1508,6 +1532,8 @@ class HookEval:
                         finally:
                             self.valenv.pop()
                             self._inline_depth -= 1
+                        if isinstance(r, Leaf) and r.kind == "try" and r.handler is None:
+                            r.handler = Leaf("fallthrough", node=hf)
                         return r if r is not None else Leaf("fallthrough", node=hf)
             # direct construction:  C(**path)  /  E(path)
             splat = [k for k in node.keywords if k.arg is None]
